@@ -41,7 +41,7 @@ def coding_cases(draw, tier, fast=None, vt=None, message=None, force_table=False
         case["after_failure"] = True
     if options in ("np_start", "all", "dtype"):
         # the start vertex as a numpy integer (what obtain_vertices / where() hand out), also of a narrow type
-        case["np_start"] = draw(st.sampled_from(["int64", "int64", "int32", "uint8", "int16"]))
+        case["np_start"] = draw(st.sampled_from(["int64", "int64", "int32", "uint8", "int16", "int8"]))
         case["np_lengths"] = True  # bit_length / vt_length as numpy integers, too
     if options in ("dtype", "layout") and table is not None:
         case["table_dtype"] = draw(st.sampled_from(["int64", "float64", "int8", "float32"]))
@@ -61,6 +61,8 @@ def start_of(case):
         kind = "uint16" if start < 65536 else "int64"
     if kind == "int16" and start > 32767:
         kind = "int32"
+    if kind == "int8" and start > 127:
+        kind = "int16" if start <= 32767 else "int32"
     return getattr(numpy, kind)(start)
 
 
